@@ -148,3 +148,76 @@ func VH_C13_sequential(caseID int) {
 		}
 	}
 }
+
+// VH_C13_concurrent: n concurrent requests on one key, every interleaving at lock / storage /
+// handler boundaries. case = algo*8 + storage*4 + (n-2)*2 + skipFailed.
+func VH_C13_concurrent(caseID int) {
+	sliding := caseID/8 == 1
+	stub := (caseID/4)%2 == 1
+	n := 2 + (caseID/2)%2
+	skipFailed := caseID%2 == 1
+	cfg := Config{Max: 1, Expiration: 2 * time.Second, SkipFailedRequests: skipFailed}
+	if sliding {
+		cfg.LimiterMiddleware = SlidingWindow{}
+	}
+	if stub {
+		cfg.Storage = &vStubStorage{data: map[string][]byte{}, exp: map[string]int64{}}
+	}
+	limit := vConcretize(vInt("limit", 1, 2))
+	cfg.MaxFunc = func(c fiber.Ctx) int { return limit }
+	cfg.KeyGenerator = func(c fiber.Ctx) string { return "k" }
+	vStub("html.EscapeString=identity")
+	vStub("fasthttp.normalizePath=skip")
+	app := fiber.New()
+	reached := 0
+	failing := make([]bool, n)
+	app.Use(New(cfg))
+	app.Get("/:i", func(c fiber.Ctx) error {
+		reached++
+		vYield("handler")
+		if failing[int(c.Params("i")[0]-'0')] {
+			return c.SendStatus(500)
+		}
+		return c.SendStatus(200)
+	})
+	statuses := make([]int, n)
+	for k := 0; k < n; k++ {
+		if skipFailed {
+			failing[k] = vChoice("fail"+strconv.Itoa(k), 2) == 1
+		}
+	}
+	vSched(true)
+	for k := 0; k < n; k++ {
+		k := k
+		vSpawn(func() {
+			fctx := &fasthttp.RequestCtx{}
+			fctx.Request.Header.SetMethod("GET")
+			fctx.Request.SetRequestURI("/" + strconv.Itoa(k))
+			app.Handler()(fctx)
+			statuses[k] = fctx.Response.StatusCode()
+		})
+	}
+	vJoin()
+	vSched(false)
+	// counted hits = admitted requests that were not skipped afterwards
+	counted := 0
+	admitted := 0
+	for k := 0; k < n; k++ {
+		if statuses[k] != fiber.StatusTooManyRequests {
+			admitted++
+			if !(skipFailed && failing[k]) {
+				counted++
+			}
+		}
+	}
+	vAssert(admitted == reached, "status-vs-handler")
+	vAssert(counted <= limit, "never-more-than-limit")
+	if !skipFailed {
+		want := n
+		if limit < n {
+			want = limit
+		}
+		vAssert(admitted == want, "budget-fully-usable")
+	}
+	vReach("joined")
+}
